@@ -200,7 +200,12 @@ Inductive op :=
 | Poison (t : N) (always : bool)              (* fault plan: the Put with ticket t will return a Store error *)
 | CksF (i : N)                                (* checkpointSessionSync whose Store.Put returns an error *)
 | RelF (i : N)                                (* release whose checkpoint Delete returns a (transient) Store error *)
-| Crash (preserved : bool) (fail : option N) (now : Z).   (* stop; new incarnation restores from the store *)
+| Crash (preserved : bool) (fail : option N) (now : Z)    (* stop; new incarnation restores from the store *)
+| RelStop (i : N) (putdone : bool) (preserved : bool) (fail : option N) (now : Z).
+    (* stop IN THE MIDDLE of the release of session i: the in-memory part has run (of it only the dataplane delete
+       outlives the stop), the checkpoint Delete has been issued but has not taken effect — it waits behind the
+       write that is at the Store, which has (putdone) or has not yet completed, or it is at the Store itself.
+       The release has not completed: the session does not count as released. *)
 
 Inductive out :=
 | ONew (a4 a6 apd : option N) (x4 x6 xpd : bool)   (* x* : that pool was asked and is exhausted *)
@@ -446,6 +451,22 @@ Definition do_crash (c : cfg) (s : st) (preserved : bool) (fail : option N) (now
   let '(s1, lg) := fold_left (restore_one c now fail cause (store s)) (isort (map fst (store s))) (s0, []) in
   (s1, OCrash lg).
 
+Definition set_dp (s : st) (d : list (N * dpe)) : st :=
+  {| store := store s; pend := pend s; tick := tick s; applied := applied s; live := live s; leases := leases s;
+     dp := d; dpnext := dpnext s; released := released s; used := used s; poison := poison s;
+     completed := completed s |}.
+
+Definition do_relstop (c : cfg) (s : st) (i : N) (putdone preserved : bool) (fail : option N) (now : Z) : st * out :=
+  let s1 := if putdone && c_ordered c then
+              match first_of c s i (pend s) with Some t0 => fst (do_done_core c s t0 false) | None => s end
+            else s in
+  let hasdp := match aget i (live s) with Some r => negb (s_swif r =? 0) | None => false end in
+  let s2 := if hasdp then set_dp s1 (aremove i (dp s1)) else s1 in
+  match do_crash c s2 preserved fail now with
+  | (s3, OCrash lg) => (s3, OCrash ((if hasdp then [TDEL i] else []) ++ lg))
+  | x => x
+  end.
+
 Definition step (c : cfg) (s : st) (o : op) : option (st * out) :=
   match o with
   | New n o4 o6 opd => do_new c s n o4 o6 opd
@@ -457,6 +478,7 @@ Definition step (c : cfg) (s : st) (o : op) : option (st * out) :=
   | CksF i => Some (do_cksf c s i)
   | RelF i => Some (do_relf c s i)
   | Crash p f now => Some (do_crash c s p f now)
+  | RelStop i pd p f now => Some (do_relstop c s i pd p f now)
   end.
 
 (* run a history; None = some allocator observation was inadmissible *)
